@@ -267,6 +267,8 @@ class SpecGen:
         else:
             disp = {"n": self.pick_hashable()}
         lookup = [[c, self.pick_any()] for c in r.sample(U.DISPATCH_VALUES, r.randint(1, 3))]
+        if self.cfg.get("empty_switches") and r.random() < 0.1:
+            lookup = []  # no branch registered (yet): every value is unmatched
         default = self.pick_any() if r.random() < 0.6 else None
         return self.add({"k": "switch", "dispatch": disp, "lookup": lookup, "default": default})
 
@@ -281,6 +283,8 @@ class SpecGen:
                 else:
                     pred = {"t": "param", "n": self.selector_leaf()}
                     self.unused.remove(pred["n"])
+            elif self.cfg.get("plain_case_conditions") and r.random() < 0.2:
+                pred = {"t": "plain", "v": r.choice(["a", "b", 1])}  # .when('a', X): a plain value where a predicate is expected
             else:
                 pred = {"t": "eq", "v": r.choice(U.DISPATCH_VALUES)}
             cases.append([pred, self.pick_any()])
@@ -390,6 +394,8 @@ class SpecGen:
         members = [{"t": "const", "name": "P", "v": r.choice([1, "p", None])}]
         if r.random() < 0.5:
             members.append({"t": "annot", "name": "REQ"})
+        if r.random() < 0.4:
+            members.append({"t": "annot", "name": "_HID"})  # a declared member with a private-looking name (required)
         if r.random() < 0.6:
             members.append({"t": "sub", "name": "SUB", "v": r.choice([0, "x"])})
         if r.random() < 0.6:
@@ -769,6 +775,8 @@ LIB_STEPS = [
     "F.map(_s.tag) + _s.step(_s.collect1)", "F.filter(_s.truthy) + _s.step(_s.collect1)", "F.flatmap(_s.twice) + _s.step(_s.collect1)",
     "F.flatten + _s.step(_s.collect1)", "F.get(0, 'dflt')", "F.get({p}, None)", "F.get_from({p}, 'nf')", "F.partial(_s.pair, {p})",
     "F.ensure(_s.truthy, 'falsy')", "F.call_method('upper')",
+    # user functions that happen to be NAMED like ready-made steps of labrea.functions
+    "_s.pstep(_s.flatten)", "_s.pstep(_s.length)", "_s.pstep(_s.negate)", "_s.pstep(_s.flatten)", "_s.pstep(_s.length)",
 ]
 # helpers that close over a lambda / local function: their steps cannot be pickled (KF-C20-functions-helpers-close-over-lambdas)
 LIB_STEPS_LOCAL = [
